@@ -88,11 +88,61 @@ def scc_links(ck, facts, R):
             ck.violation(R, "Fulfill::prove:threads-minimums", pr.where(), "sub-goal minimums must flow into the caller's minimums")
 
 
+def table_insert(ck, facts, cg, R):
+    """Shared with C12: a table is published (Tables::insert) only after build_table returned - a panic in a database callback while the
+    table is being built leaves nothing half-built behind for later queries to find."""
+    ck.rule(R, "K3/K4: Tables::insert is called only from get_or_create_table_for_ucanonical_goal, after build_table returned, and only "
+               "when index_of found no table for the goal")
+    cs = cg.callers_of(lambda k: k == "chalk_engine::tables::Tables::insert")
+    ck.floor(R, "callers-of-Tables::insert", len(cs), 1)
+    G = "chalk_engine::forest::Forest::get_or_create_table_for_ucanonical_goal"
+    for k, blk, t in cs:
+        if k == G:
+            ck.ok(R, "Tables::insert<-%s" % short(k))
+        else:
+            ck.violation(R, "Tables::insert<-%s" % short(k), cg.bodies[k].where(t.get("ln")), "a table is published outside the audited function")
+    g = need_body(ck, facts, R, G)
+    if g:
+        dominated_by_calls(ck, R, g, "Tables::insert", "Forest::build_table", "Tables::insert", "build_table returned")
+        cfg = g.cfg
+        # insert only on the `index_of == None` path
+        e = cfg.variant_edges(lambda tr: tr.get("of", {}).get("kind") == "call" and callee_matches(tr["of"]["call"], "Tables::index_of"), ["None"])
+        guard_sites(ck, R, g, cfg.call_blocks("Tables::insert"), e, "Tables::insert", "index_of(goal) == None")
+
+
+def refinement_guard(ck, facts, R):
+    """Shared by C05 / C10: an answer that still carries delayed (coinductive-cycle) subgoals is only a promise; it becomes a real
+    answer through its refinement strand.  create_refinement_strand may decline (None) only for an answer with no delayed subgoals -
+    whatever table published it - and the strand it builds must carry every delayed subgoal."""
+    from kit import adaptor_sites
+    ck.rule(R, "K3: in SolveState::create_refinement_strand every `None` is behind the true edge of `delayed_subgoals.is_empty()` (no other "
+               "condition - the kind of the table, the position on the stack - may decline a refinement), and the delayed subgoals become "
+               "the new strand's subgoals without an element-dropping adaptor")
+    key = "chalk_engine::logic::SolveState::create_refinement_strand"
+    b = need_body(ck, facts, R, key)
+    if not b:
+        return
+    cfg = b.cfg
+    # `None` written to the return place (a `None` stored in a field of the new strand is something else)
+    nones = sorted({blk for blk, j, st in cfg.agg_sites("core::option::Option", "None") if (st.get("p") or {}).get("l") == 0 and not (st["p"].get("pj"))})
+    empt = cfg.bool_edges(trace_is_call("is_empty"), True)
+    ck.floor(R, "create_refinement_strand.None-sites/is_empty-edges", min(len(nones), len(empt)), 1)
+    guard_sites(ck, R, b, nones, empt, "None", "answer.delayed_subgoals.is_empty()")
+    drops = adaptor_sites(facts, "chalk_engine", lambda k: k == key)
+    if drops:
+        ck.violation(R, "create_refinement_strand:all-delayed-subgoals", b.where(), "delayed subgoals are dropped on the way into the refinement strand (%s)" % sorted(a for _k, a in drops))
+    else:
+        ck.ok(R, "create_refinement_strand:all-delayed-subgoals", "no element-dropping adaptor")
+
+
 def run(ck, facts, tier):
     from shared import state
     state.any_future_answer(ck, facts, "C10.ANY-FUTURE")
     state.result_stores(ck, facts, "C10.RESULT-STORES")
     scc_links(ck, facts, "C10.SCC-LINKS")
+    refinement_guard(ck, facts, "C10.REFINE-GUARD")
+    from shared import fixedpoint
+    fixedpoint.table(ck, facts, "C10.FIXED-POINT-TABLE", which=("stale",))
     cg = CallGraph(facts, ["chalk_solve", "chalk_engine", "chalk_recursive", "chalk_integration", "chalk"])
     R = "C10.CACHE-WRITER"
     ck.rule(R, "K4: Cache::insert <- only SearchGraph::move_to_cache <- only RecursiveContext::solve_goal")
@@ -183,24 +233,7 @@ def run(ck, facts, tier):
                              "key type has a hand-written (or missing) %s impl; it could ignore the environment" % tr)
     ck.floor(R, "key-impls", n, 8)
 
-    R = "C10.TABLE-INSERT"
-    ck.rule(R, "K3/K4: Tables::insert is called only from get_or_create_table_for_ucanonical_goal, after build_table returned, and only "
-               "when index_of found no table for the goal")
-    cs = cg.callers_of(lambda k: k == "chalk_engine::tables::Tables::insert")
-    ck.floor(R, "callers-of-Tables::insert", len(cs), 1)
-    G = "chalk_engine::forest::Forest::get_or_create_table_for_ucanonical_goal"
-    for k, blk, t in cs:
-        if k == G:
-            ck.ok(R, "Tables::insert<-%s" % short(k))
-        else:
-            ck.violation(R, "Tables::insert<-%s" % short(k), cg.bodies[k].where(t.get("ln")), "a table is published outside the audited function")
-    g = need_body(ck, facts, R, G)
-    if g:
-        dominated_by_calls(ck, R, g, "Tables::insert", "Forest::build_table", "Tables::insert", "build_table returned")
-        cfg = g.cfg
-        # insert only on the `index_of == None` path
-        e = cfg.variant_edges(lambda tr: tr.get("of", {}).get("kind") == "call" and callee_matches(tr["of"]["call"], "Tables::index_of"), ["None"])
-        guard_sites(ck, R, g, cfg.call_blocks("Tables::insert"), e, "Tables::insert", "index_of(goal) == None")
+    table_insert(ck, facts, cg, "C10.TABLE-INSERT")
 
     R = "C10.DELAYED-ANSWERS"
     ck.rule(R, "K3: an SLG answer published with delayed (coinductive) subgoals is provisional until a refinement strand has discharged "
